@@ -185,9 +185,14 @@ class SymEx:
                 if tgt is None:
                     tgt = t["otherwise"]
                 return self._dfs(tgt, env, conds, effects, blocks, visited)
+            # a path that decides the same (pure) condition term differently twice is infeasible
+            prior = [tv for c0, tv in conds if c0 == dt] if _pure_term(dt) else []
             for v, b in cases:
+                if prior and not _agrees(prior[-1], v, vals):
+                    continue
                 self._dfs(b, env, conds + [(dt, v)], effects, blocks, visited)
-            self._dfs(t["otherwise"], env, conds + [(dt, ("else", vals))], effects, blocks, visited)
+            if not prior or _agrees(prior[-1], ("else", vals), vals):
+                self._dfs(t["otherwise"], env, conds + [(dt, ("else", vals))], effects, blocks, visited)
             return
         # unreachable / resume / other: path ends without a return
         return
@@ -195,3 +200,36 @@ class SymEx:
 
 def decision_table(prog, body, inline_depth=0, max_paths=4000):
     return SymEx(prog, body, inline_depth=inline_depth, max_paths=max_paths).run()
+
+
+_IMPURE = ("::next", "rand", "::recv", "::take", "::pop", "::insert", "::push", "::remove", "::get_or_init", "::replace", "::swap", "::next_u", "::gen")
+
+
+def _pure_term(t):
+    """No call in the term can yield a different value when evaluated again on the same path (iterator steps, RNG, channel, mutation)."""
+    from terms import walk
+    for x in walk(t):
+        if x[0] in ("call", "icall"):
+            n = x[1] if x[0] == "call" else ""
+            if x[0] == "icall" or any(k in n for k in _IMPURE):
+                return False
+        if x[0] in ("var", "opaque"):
+            return False
+    return True
+
+
+def _agrees(prev, now, vals):
+    """Can a switch over the same value take `now` after having taken `prev`?  Values are case constants or ('else', excluded)."""
+    def as_set(v):
+        if isinstance(v, tuple) and v and v[0] == "else":
+            return None, set(v[1])
+        return v, None
+    pv, pex = as_set(prev)
+    nv, nex = as_set(now)
+    if pv is not None and nv is not None:
+        return pv == nv
+    if pv is not None:      # previously a concrete value, now the default edge: fine iff the value is not one of the present cases
+        return pv not in nex
+    if nv is not None:      # previously "none of these", now a concrete value
+        return nv not in pex
+    return True
